@@ -1,8 +1,9 @@
 package main
 
 import (
-	"math"
 	"fmt"
+	"math"
+	"math/big"
 
 	"github.com/tidwall/geojson/geometry"
 	"verif/mc/exact"
@@ -70,7 +71,7 @@ func diffsWithin(lim int64, ps ...exact.P) bool {
 	return true
 }
 
-func in20(p exact.P) bool { return abs64i(p.X) <= 1<<20 && abs64i(p.Y) <= 1<<20 }
+func in20(p exact.P) bool       { return abs64i(p.X) <= 1<<20 && abs64i(p.Y) <= 1<<20 }
 func padd(a, b exact.P) exact.P { return exact.P{X: a.X + b.X, Y: a.Y + b.Y} }
 func psub(a, b exact.P) exact.P { return exact.P{X: a.X - b.X, Y: a.Y - b.Y} }
 
@@ -734,5 +735,159 @@ func evalC19NegZero(c *rt.Case) (bool, string, string, error) {
 	fp := nz(p, mode&1 != 0)
 	res := fs.Raycast(fp)
 	bad := res.On != on || res.In != in || fs.ContainsPoint(fp) != on || fs.CollinearPoint(fp) != exact.Collinear(p, a, b)
+	return bad, fmt.Sprintf("on=%v in=%v", on, in), fmt.Sprintf("raycast on=%v in=%v", res.On, res.In), nil
+}
+
+// c19MixedScale: long segments (ends on multiples of 2^17 up to +-2^20) and
+// points a few ulps off them: a point of the segment on the 2^17 grid moved by
+// +-1, 2, 4 units of 2^-34 in x or in y (all exactly representable). Decided
+// in exact integer arithmetic on the 2^-34 grid (math/big: the products do
+// not fit 64 bits).
+func c19MixedScale(r *rt.Run) {
+	const unit = 1.0 / (1 << 34)
+	grid := []int64{-8, -4, -2, 0, 1, 3, 4, 8} // multiples of 2^17
+	type seg struct{ ax, ay, bx, by int64 }
+	var segs []seg
+	for _, ax := range grid {
+		for _, ay := range grid {
+			for _, bx := range grid {
+				for _, by := range grid {
+					if (ax != bx || ay != by) && (ax == -8 || ay == -8 || ax == 0) {
+						segs = append(segs, seg{ax, ay, bx, by})
+					}
+				}
+			}
+		}
+	}
+	r.Bounds["mixed_scale_segments"] = len(segs)
+	big51 := func(v int64) *big.Int { return new(big.Int).Lsh(big.NewInt(v), 51) } // 2^17 / 2^-34
+	r.ParFor(len(segs), func(i int, w *rt.Worker) {
+		s := segs[i]
+		fa, fb := geometry.Point{X: float64(s.ax) * 131072, Y: float64(s.ay) * 131072}, geometry.Point{X: float64(s.bx) * 131072, Y: float64(s.by) * 131072}
+		fs := geometry.Segment{A: fa, B: fb}
+		A := [2]*big.Int{big51(s.ax), big51(s.ay)}
+		B := [2]*big.Int{big51(s.bx), big51(s.by)}
+		// lattice points of the 2^17 grid on the segment (parameter t = k/8)
+		for k := int64(0); k <= 8; k++ {
+			nx, ny := s.ax*8+(s.bx-s.ax)*k, s.ay*8+(s.by-s.ay)*k // in units of 2^14
+			if nx%8 != 0 || ny%8 != 0 {
+				continue
+			}
+			px, py := nx/8, ny/8
+			for _, d := range []int64{0, 1, -1, 2, -2, 4, -4} {
+				for axis := 0; axis < 2; axis++ {
+					if d == 0 && axis == 1 {
+						continue
+					}
+					fp := geometry.Point{X: float64(px) * 131072, Y: float64(py) * 131072}
+					P := [2]*big.Int{big51(px), big51(py)}
+					if axis == 0 {
+						fp.X += float64(d) * unit
+						P[0].Add(P[0], big.NewInt(d))
+					} else {
+						fp.Y += float64(d) * unit
+						P[1].Add(P[1], big.NewInt(d))
+					}
+					// the displaced ordinate must be the number the model holds (2^-34 is
+					// below the ulp of ordinates of magnitude 2^19 and more)
+					if base := (geometry.Point{X: float64(px) * 131072, Y: float64(py) * 131072}); fp.X-base.X != float64(d)*unit*float64(1-axis) || fp.Y-base.Y != float64(d)*unit*float64(axis) {
+						continue
+					}
+					// ... and the differences the kernels form (p-a, p-b) must be exact in
+					// float64 as well, as the property's domain demands
+					if !fits53(P[0], A[0]) || !fits53(P[1], A[1]) || !fits53(P[0], B[0]) || !fits53(P[1], B[1]) {
+						continue
+					}
+					on, in := bigRay(P, A, B)
+					w.Evals += 3
+					w.States++
+					w.Nontriv++
+					res := fs.Raycast(fp)
+					cp, col := fs.ContainsPoint(fp), fs.CollinearPoint(fp)
+					wantCol := bigCross(P, A, B).Sign() == 0
+					if res.On != on || res.In != in || cp != on || col != wantCol {
+						d, axis, k := d, axis, k
+						w.Fail("mixed-scale", func() (rt.Case, string, string) {
+							return rt.Case{Kind: "mixed-scale", Op: "point", Nums: []float64{float64(s.ax), float64(s.ay), float64(s.bx), float64(s.by), float64(k), float64(d), float64(axis)}},
+								fmt.Sprintf("on=%v in=%v collinear=%v", on, in, wantCol), fmt.Sprintf("raycast on=%v in=%v contains=%v collinear=%v", res.On, res.In, cp, col)
+						})
+					}
+				}
+			}
+		}
+	})
+}
+
+// fits53: the difference of two ordinates (in grid units) is a float64.
+func fits53(a, b *big.Int) bool {
+	d := new(big.Int).Sub(a, b)
+	d.Abs(d)
+	if d.Sign() == 0 {
+		return true
+	}
+	return d.BitLen()-int(d.TrailingZeroBits()) <= 53
+}
+
+// bigCross: (B-A) x (P-A)
+func bigCross(P, A, B [2]*big.Int) *big.Int {
+	bx, by := new(big.Int).Sub(B[0], A[0]), new(big.Int).Sub(B[1], A[1])
+	px, py := new(big.Int).Sub(P[0], A[0]), new(big.Int).Sub(P[1], A[1])
+	return new(big.Int).Sub(new(big.Int).Mul(bx, py), new(big.Int).Mul(by, px))
+}
+
+// bigRay: on-segment and half-open ray crossing in exact arithmetic.
+func bigRay(P, A, B [2]*big.Int) (on, in bool) {
+	cr := bigCross(P, A, B)
+	within := func(p, a, b *big.Int) bool {
+		lo, hi := a, b
+		if lo.Cmp(hi) > 0 {
+			lo, hi = hi, lo
+		}
+		return p.Cmp(lo) >= 0 && p.Cmp(hi) <= 0
+	}
+	if cr.Sign() == 0 && within(P[0], A[0], B[0]) && within(P[1], A[1], B[1]) {
+		return true, false
+	}
+	lo, hi := A, B
+	if lo[1].Cmp(hi[1]) > 0 {
+		lo, hi = hi, lo
+	}
+	// crossing iff lo.y <= p.y < hi.y and P is to the left of the segment lo->hi
+	if !(P[1].Cmp(lo[1]) >= 0 && P[1].Cmp(hi[1]) < 0) {
+		return false, false
+	}
+	return false, bigCross(P, lo, hi).Sign() > 0
+}
+
+func evalC19MixedScale(c *rt.Case) (bool, string, string, error) {
+	if len(c.Nums) < 7 {
+		return false, "", "", fmt.Errorf("malformed case")
+	}
+	const unit = 1.0 / (1 << 34)
+	n := func(i int) int64 { return int64(c.Nums[i]) }
+	big51 := func(v int64) *big.Int { return new(big.Int).Lsh(big.NewInt(v), 51) }
+	ax, ay, bx, by, k, d, axis := n(0), n(1), n(2), n(3), n(4), n(5), int(n(6))
+	fs := geometry.Segment{A: geometry.Point{X: float64(ax) * 131072, Y: float64(ay) * 131072}, B: geometry.Point{X: float64(bx) * 131072, Y: float64(by) * 131072}}
+	nx, ny := ax*8+(bx-ax)*k, ay*8+(by-ay)*k
+	if nx%8 != 0 || ny%8 != 0 {
+		return false, "", "", fmt.Errorf("malformed case")
+	}
+	px, py := nx/8, ny/8
+	fp := geometry.Point{X: float64(px) * 131072, Y: float64(py) * 131072}
+	P := [2]*big.Int{big51(px), big51(py)}
+	if axis == 0 {
+		fp.X += float64(d) * unit
+		P[0].Add(P[0], big.NewInt(d))
+	} else {
+		fp.Y += float64(d) * unit
+		P[1].Add(P[1], big.NewInt(d))
+	}
+	A, B := [2]*big.Int{big51(ax), big51(ay)}, [2]*big.Int{big51(bx), big51(by)}
+	if !fits53(P[0], A[0]) || !fits53(P[1], A[1]) || !fits53(P[0], B[0]) || !fits53(P[1], B[1]) {
+		return false, "", "", fmt.Errorf("outside the exact domain")
+	}
+	on, in := bigRay(P, A, B)
+	res := fs.Raycast(fp)
+	bad := res.On != on || res.In != in || fs.ContainsPoint(fp) != on || fs.CollinearPoint(fp) != (bigCross(P, A, B).Sign() == 0)
 	return bad, fmt.Sprintf("on=%v in=%v", on, in), fmt.Sprintf("raycast on=%v in=%v", res.On, res.In), nil
 }
